@@ -6,7 +6,7 @@
 EXTENDS Loader, Json, IOUtils, SequencesExt
 Paths == ndJsonDeserialize(IOEnv.PATHS)
 Kinds == {"null", "bool", "int", "float", "string", "empty-list", "list-of-strings", "list-of-maps", "empty-map", "map", "int-keyed-map", "nested-list", "repeated-strings", "repeated-maps",
-          "odd-strings", "odd-string", "odd-map", "reset-tag", "override-tag"}
+          "odd-strings", "odd-string", "unc-prefix", "drive-prefix", "odd-map", "reset-tag", "override-tag"}
 Positions == {"single", "override-top", "override-base", "extended-base", "extending", "included",
               "pair-map", "pair-list", "pair-string", "extends-pair-map", "extends-pair-list", "extends-pair-string", "include-pair"}     \* the attribute present in both files: base of the given kind, override of the case kind
 SchemaKind(k) == CASE k \in {"empty-list", "list-of-strings", "list-of-maps", "nested-list", "odd-strings", "repeated-strings", "repeated-maps"} -> "array"
